@@ -90,7 +90,15 @@ class Builder:
         raise ValueError(cls)
 
     def build(self, prog, reps=1, top=True):
-        circuit = DeclarativeCircuit(repetition_strategy=FixedRepetitionStrategy(reps))
+        # repetition counts are given as fixed numbers or through a (shared) repetition registry: every third nested block,
+        # chosen by a deterministic function of the input, uses the registry
+        if not top and (7 * reps + len(prog)) % 3 == 0:
+            key = f"r{len(self.rep_registry._variable_repetitions)}"
+            self.rep_registry.set_registry_at(key, reps)
+            strategy = RegistryRepetitionStrategy(registry=self.rep_registry, registry_key=key)
+        else:
+            strategy = FixedRepetitionStrategy(reps)
+        circuit = DeclarativeCircuit(repetition_strategy=strategy)
         entries = []
         for c in prog:
             if c['t'] == 'sub':
